@@ -378,6 +378,36 @@ def run_call(case, ctx):
                 ctx.count('opt:result_labels')
                 rl_ = case['result_labels']
                 A.CALLER_LABELS.update([rl_] if isinstance(rl_, str) else rl_)
+            if f in ('add_pairwise_xor', 'add_pairwise_if_then_else') and ops and len(ops[0]) >= 1 and _rng.random() < 0.3:
+                # the same request with mismatched shapes first (operands or result labels of different lengths): it must
+                # be refused with the documented error and, since nothing was built, must not have marked any output;
+                # the caller then repeats the request correctly on the same host with the same labels
+                from cirbo.synthesis.generation.exceptions import BadShapesError
+                outs_before = list(c.outputs)
+                bad_ops = [list(o) for o in ops]
+                bad_rl = case.get('result_labels')
+                how = _rng.choice(['short_operand', 'long_labels', 'short_labels'] if bad_rl else ['short_operand'])
+                if how == 'short_operand':
+                    bad_ops[-1] = bad_ops[-1][:-1]
+                elif how == 'long_labels':
+                    bad_rl = list(bad_rl) + ['vt_extra_label']
+                else:
+                    bad_rl = list(bad_rl)[:-1]
+                try:
+                    with monitor.suspended():
+                        if f == 'add_pairwise_xor':
+                            gn.add_pairwise_xor(c, bad_ops[0], bad_ops[1], result_labels=bad_rl, **opt)
+                        else:
+                            gn.add_pairwise_if_then_else(c, bad_ops[0], bad_ops[1], bad_ops[2], result_labels=bad_rl, **opt)
+                    ctx.count('mismatched_request_accepted')
+                except BadShapesError:
+                    ctx.count('refused_then_repeated')
+                    if list(c.outputs) != outs_before:
+                        ctx.violation(f, 'wrong_result', 'refused_request_marked_outputs',
+                                      'a request refused with the shape error changed the output list %r -> %r' % (
+                                          outs_before, list(c.outputs)), dict(case, refused_first=how))
+                except Exception as e:
+                    ctx.count('mismatched_request_raised:' + type(e).__name__)
             if f == 'add_sub_two_numbers':
                 ar.add_sub_two_numbers(c, ops[0], ops[1], big_endian=be)
             elif f == 'add_sub2':
